@@ -751,6 +751,40 @@ func genC09(r *Rng, tier string) []Case {
 		}
 	}
 
+	// smallest messages: every section size 0..2 with names taken from {root, one-octet label} and RDATA empty or one octet,
+	// i.e. the entries with the fewest octets the wire format allows (5 per question, 11 per record)
+	for k := 0; k < 81; k++ {
+		q, a, n, x := k%3, k/3%3, k/9%3, k/27
+		for v := 0; v < 5; v++ {
+			qn, rn, rd := "", "", []byte(nil)
+			switch v {
+			case 1:
+				qn, rn = "a", "a"
+			case 2:
+				qn = "a"
+			case 3:
+				rn = "a"
+			case 4:
+				rd = []byte{7}
+			}
+			m := &c09Msg{ID: uint16(k), Flags: uint16(v)}
+			for i := 0; i < q; i++ {
+				m.Q = append(m.Q, c09Q{qn, 1, 1})
+			}
+			mk := func(c int, nm string) []c09R {
+				var out []c09R
+				for i := 0; i < c; i++ {
+					out = append(out, c09R{nm, 6, 1, 0, 0, rd})
+				}
+				return out
+			}
+			m.An, m.Ns, m.Ar = mk(a, rn), mk(n, ""), mk(x, rn)
+			cs = append(cs, Case{Op: "c09.roundtrip", MArgs: m.tokens(), SArgs: m.tokens(), Tag: "roundtrip.smallest-entries"})
+			w, _, _ := m.serialize(1, r.Fork("smallest"))
+			decmsg(w, m.canonical(), "ser.smallest-entries")
+		}
+	}
+
 	// ---- decoding what other serializers produce: own compressor (every admissible placement
 	// class) and miekg/dns with and without compression
 	rc := r.Fork("compress")
